@@ -76,6 +76,24 @@ fn check_fast(report: &Report, s: &str) -> u8 {
         }
         Err(m) => viol(report, "panic", s, format!("TryFrom<&str> panicked: {m}")),
     }
+    // the three constructors that take or parse an owned / borrowed string differently: same verdict for every input
+    // (strings up to 64 bytes: beyond that only the length gate is of interest and `new` has been judged above)
+    if s.len() <= 64 {
+        for (name, r2) in [
+            ("from_str", catch(|| obs(NormalizedString::from_str(s)))),
+            ("from_string", catch(|| obs(NormalizedString::from_string(s.to_string())))),
+            ("TryFrom<String>", catch(|| obs(NormalizedString::try_from(s.to_string())))),
+        ] {
+            match r2 {
+                Ok(o) => {
+                    if o != r {
+                        viol(report, "constructors-disagree", s, format!("{name} gave {o:?}, new() gave {r:?}"));
+                    }
+                }
+                Err(m) => viol(report, "panic", s, format!("{name} panicked: {m}")),
+            }
+        }
+    }
     match w {
         Obs::Ok(_) => 0,
         Obs::Length => 1,
